@@ -433,8 +433,10 @@ def run(report, index, tier):
     from .c06 import line_index_rule
     line_index_rule(report, index, 'R08.4')
     report.not_decided += [
-        'which source file a fragment names (sourcepath stack of '
-        'walker.walk: runtime stack, walker.py is digest-guarded only)',
+        'source paths for nestings of programs deeper than the '
+        'scenarios of R08.5 (the sourcepath stack of walker.walk is '
+        'evaluated on a program, a program inside a program and two '
+        'programs in a bundle)',
         'comma runs of Array elisions (data dependent ElisionJoinAttr)']
     report.trusted_base += ['action interpreter (E3)', 'skeleton alignment '
                             '(E5)', 'abstract evaluator (E6)']
